@@ -1,10 +1,13 @@
 """C13 — speech-engine markup (SSML, SAPI5) is well formed and never changes the words.
 
-Per case: the same expression under the same preferences is spoken three times — TTS explicitly "None", "SSML", "SAPI5".
+Per case three sessions of one driver (threads with their own MathCAT state) get the SAME history — the same preferences, the same
+set_mathml, get_spoken_text, get_overview_text and (for walks) the same navigation commands — and differ only in TTS, which is
+explicitly "None", "SSML", "SAPI5".  Every speech-producing entry point is judged: get_spoken_text, get_overview_text and the speech
+returned by every navigation command, in both speak modes (read / overview after ToggleSpeakMode) and all navigation modes.
 Oracles (all independent of MathCAT's code):
   markup    tag-soup validator of c13_markup (engine vocabulary, attribute syntax + value grammars, nesting, own-name closing),
             Python's XML parser as second opinion;
-  words     text left after removing the tags == plain-mode speech, pause punctuation and ALL white space removed;
+  words     text left after removing the tags == plain-mode speech of the same call, pause punctuation and ALL white space removed;
   bookmark  every mark/bookmark name is an id of the MathML that the preceding set_mathml returned.
 Besides the shipped rule files a private copy of Rules/ gets one extra speech style (C13Probe) whose rules use every TTS command of
 tts.rs (the shipped rules never use volume/voice/gender, so those start/end-tag table rows are otherwise unreachable)."""
@@ -29,6 +32,7 @@ DEFAULTS = {
     "Rate": "180", "MathRate": "100", "PauseFactor": "100", "Pitch": "0", "Volume": "100",
     "CapitalLetters_Pitch": "0", "CapitalLetters_UseWord": "true", "CapitalLetters_Beep": "false", "Bookmark": "false",
     "Verbosity": "Medium", "Impairment": "Blindness", "SpeechOverrides_CapitalLetters": "",
+    "NavMode": "Enhanced", "NavVerbosity": "Medium", "AutoZoomOut": "true",
 }
 NUMERIC = ("Rate", "MathRate", "PauseFactor", "Pitch", "Volume", "CapitalLetters_Pitch")
 # (ordinary values, hostile values: zero / negative / tiny / huge / non-finite)
@@ -83,6 +87,9 @@ def random_cfg(rng, rules, lang, style, hostile_p):
     p["Verbosity"] = rng.choice(["Terse", "Medium", "Verbose"])
     p["Impairment"] = rng.choice(["Blindness", "Blindness", "LowVision", "LearningDisability"])
     p["SpeechOverrides_CapitalLetters"] = rng.choice(CAP_WORDS)
+    p["NavMode"] = rng.choice(["Enhanced", "Enhanced", "Simple", "Character"])
+    p["NavVerbosity"] = rng.choice(["Terse", "Medium", "Full"])
+    p["AutoZoomOut"] = rng.choice(["true", "true", "false"])
     return {"rules": rules, "lang": lang, "style": style, "prefs": p}
 
 
@@ -294,11 +301,21 @@ INDEX_LETTERS = list("nkmij")
 GOOD_IDS = ["u%d", "node-%d", "a.b_%d", "Ünï%d", "id%dø", "x%d-y.z", "_%d", "式%d"]
 SINGLE_CHAR_IDS = "AaBxZΓπ_"
 HOSTILE_IDS = ["it's%d", "a\"b%d", "a<b%d", "R&D%d", "x'y'z%d", "p>q%d", "a b%d", "a\u00a0b%d", "+%d", "%d"]
-SPECIAL_TEXT = ["a<b", "R&D", "x<<y", "if a<b & c>d", "<b>", "p&q;", "1<2", "AT&T", "a&lt;b", "x>y", "\"q\"", "it's", "<!--", "a<b>c</b>", "&#65;"]
+SPECIAL_TEXT = ["a<b", "R&D", "x<<y", "if a<b & c>d", "<b>", "p&q;", "1<2", "AT&T", "a&lt;b", "x>y", "\"q\"", "it's", "<!--", "a<b>c</b>", "&#65;",
+                "a < b", "x > y", "Q&A", "rock'n'roll", "say \"hi\"", "f'", "g''", "</b>", "a'b\"c", "&amp;", "<br/>", "'quoted'", "x&y<z>w'v\"u"]
+# XML special characters alone and inside words, for every kind of token (what an author or a converter may put there)
+SPECIAL_ALONE = ["<", ">", "&", "'", "\""]
+SPECIAL_BY_TAG = {
+    "mtext": SPECIAL_TEXT,
+    "mi": ["R&D", "Q&A", "f'", "g''", "a<b", "x>y", "it's", "\"q\"", "AT&T", "a'", "<b>", "x\"", "&c"],
+    "ms": ["a<b", "R&D", "it's", "say \"hi\"", "<b>", "x>y", "a & b", "'", "&lt;"],
+    "mo": ["<=", ">=", "&&", "<<", ">>", "->", "<>", "=>", "<-", "''", "&=", "'\""],
+    "mn": ["1<2", "2>1", "1&2", "5'", "3\"", "5'3\"", "1,000&", "<3"],
+}
 
 
 def decorate(rng, tree, cfg, feats, st=None):
-    """in-place; feats: set of 'caps','index','chem','ids','hostile_ids','special_text'"""
+    """in-place; feats: set of 'caps','index','chem','ids','hostile_ids','special_text','specials'"""
     nodes = list(tree.walk())
     for node, path in nodes:
         if node.kids is None and node.tag == "mi" and len(node.text or "") == 1:
@@ -317,6 +334,15 @@ def decorate(rng, tree, cfg, feats, st=None):
             extra.append(gen.mtext(rng.choice(PROBE_TOKENS)))
     if "special_text" in feats:
         extra.append(gen.mtext(rng.choice(SPECIAL_TEXT)))
+    if "specials" in feats:
+        for _ in range(rng.randint(1, 3)):
+            tag = rng.choice(["mtext", "mtext", "mi", "mi", "ms", "mo", "mn"])
+            text = rng.choice(SPECIAL_ALONE) if rng.random() < 0.3 else rng.choice(SPECIAL_BY_TAG[tag])
+            extra.append(gen.N(tag, text=text))
+        # and inside tokens that are already part of the structure (operands of fractions, scripts, table cells ...)
+        leaves = [n for n, p in tree.walk() if n.kids is None and n.tag in ("mi", "mn", "mtext") and p]
+        for n in rng.sample(leaves, min(len(leaves), rng.randint(0, 2))):
+            n.text = rng.choice(SPECIAL_ALONE) if rng.random() < 0.25 else rng.choice(SPECIAL_BY_TAG[n.tag])
     for e in extra:
         rows = [n for n, p in tree.walk() if n.tag in ("math", "mrow", "mtd", "msqrt") and n.kids is not None]
         host = rng.choice(rows)
@@ -339,7 +365,7 @@ def decorate(rng, tree, cfg, feats, st=None):
     return tree
 
 
-def random_feats(rng, hostile_p):
+def random_feats(rng, hostile_p, specials_p=0.3):
     f = set()
     if rng.random() < 0.8:
         f.add("caps")
@@ -349,47 +375,151 @@ def random_feats(rng, hostile_p):
         f.add("chem")
     if rng.random() < 0.35:
         f.add("ids")
-    if rng.random() < hostile_p:
+    if rng.random() < max(hostile_p, 0.12):
         f.add("hostile_ids")
     if rng.random() < hostile_p:
         f.add("special_text")
+    if rng.random() < specials_p:
+        f.add("specials")
     return f
 
 
 # ------------------------------------------------------------------------------------------------------------
 # evaluation through the driver
 # ------------------------------------------------------------------------------------------------------------
+TTS_ALL = ["None"] + ENGINES
+
+
 class Sess:
-    """one driver per (rules, language, style); numeric/boolean preferences are (re)set completely before every case"""
+    """One driver with three sessions (threads with their own MathCAT state) for one (rules, language, style): "None", "SSML", "SAPI5".
+    All three get the same operations; only the TTS preference differs.  All preferences of the configuration are (re)set before
+    every case.  The speak mode (ToggleSpeakMode) is the only navigation state that survives set_mathml: it is put back to 'read'
+    after every walk (observed with the nav_snapshot hook), so that every case starts from the same state and replays from a fresh driver."""
 
     def __init__(self, rules_dir, lang, style):
-        self.s = core.Session({"TTS": "None", "Language": lang, "SpeechStyle": style}, rules_dir=rules_dir, timeout=30.0)
+        self.rules_dir, self.lang, self.style = rules_dir, lang, style
+        self.d = None
         self.decimal = None
+        self.restarts = 0
+
+    def ensure(self):
+        if self.d is None or not self.d.alive():
+            if self.d is not None:
+                self.d.close()
+                self.restarts += 1
+            self.d = core.Driver("native", timeout=30.0)
+            for tts in TTS_ALL:
+                self.d.init({"TTS": tts, "Language": self.lang, "SpeechStyle": self.style}, rules_dir=self.rules_dir, s=tts)
+        return self.d
 
     def decimal_mark(self):
         if self.decimal is None:
-            r = self.s.call("get_preference", "DecimalSeparators")
+            try:
+                r = self.ensure().call("get_preference", "DecimalSeparators", s="None")
+            except (core.DriverDied, core.DriverTimeout):
+                r = None
             self.decimal = (r.get("v") or ".")[0] if r and r["r"] == "ok" else "."
         return self.decimal
 
-    def evaluate(self, cfg, xml):
-        """returns {'None': (set_mathml result, speech result), 'SSML': ..., 'SAPI5': ...} or None when the driver died/timed out"""
-        ops = [("set_preference", k, v) for k, v in cfg["prefs"].items()]
-        n0 = len(ops)
-        for tts in ["None"] + ENGINES:
-            ops += [("set_preference", "TTS", tts), ("set_mathml", xml), ("get_spoken_text",)]
-        ops.append(("set_preference", "TTS", "None"))
-        res = self.s.batch(ops)
-        if res is None:
+    def evaluate(self, cfg, xml, history=()):
+        """returns {'None': {'set':, 'spoken':, 'overview':, 'nav': [...]}, 'SSML': ..., 'SAPI5': ..., 'pref_errors': [...]}
+        or None when the driver died / timed out (it is restarted on the next use)"""
+        prefs = [("set_preference", k, v) for k, v in cfg["prefs"].items()]
+        n0 = len(prefs) + 1
+        out = {"pref_errors": []}
+        try:
+            d = self.ensure()
+            for tts in TTS_ALL:
+                ops = prefs + [("set_preference", "TTS", tts), ("set_mathml", xml), ("get_spoken_text",), ("get_overview_text",)]
+                ops += [("do_navigate_command", c) for c in history]
+                if history:
+                    ops.append(("nav_snapshot",))
+                res = d.batch(ops, s=tts)
+                if tts == "None":
+                    out["pref_errors"] = [(ops[i][1], res[i].get("e", res[i]["r"])) for i in range(n0) if res[i]["r"] != "ok"]
+                out[tts] = {"set": res[n0], "spoken": res[n0 + 1], "overview": res[n0 + 2], "nav": res[n0 + 3:n0 + 3 + len(history)]}
+                if history:
+                    snap = res[-1].get("v") if res[-1]["r"] == "ok" else None
+                    if not isinstance(snap, dict) or snap.get("speak_overview"):
+                        back = d.batch([("do_navigate_command", "ToggleSpeakMode"), ("nav_snapshot",)], s=tts)
+                        snap = back[-1].get("v") if back[-1]["r"] == "ok" else None
+                        if not isinstance(snap, dict) or snap.get("speak_overview"):
+                            self.close()            # cannot get back to the initial speak mode: start the next case from a fresh driver
+                            d = self.ensure()
+        except (core.DriverDied, core.DriverTimeout) as e:
+            self.last_failure = e
+            self.close()
             return None
-        out = {"pref_errors": [(ops[i][1], res[i].get("e", res[i]["r"])) for i in range(n0) if res[i]["r"] != "ok"]}
-        for j, tts in enumerate(["None"] + ENGINES):
-            base = n0 + 3 * j
-            out[tts] = (res[base + 1], res[base + 2])
         return out
 
+    def rule_hits(self):
+        try:
+            return (self.ensure().call("rule_hits", s="SSML") or {}).get("v") or {}
+        except Exception:
+            return {}
+
     def close(self):
-        self.s.close()
+        if self.d is not None:
+            self.d.close()
+            self.d = None
+
+
+# ------------------------------------------------------------------------------------------------------------
+# navigation walks
+# ------------------------------------------------------------------------------------------------------------
+_NAV_FALLBACK = ["MovePrevious", "MoveNext", "MoveStart", "MoveEnd", "MoveLineStart", "MoveLineEnd", "MoveCellPrevious", "MoveCellNext", "MoveCellUp",
+                 "MoveCellDown", "MoveColumnStart", "MoveColumnEnd", "ZoomIn", "ZoomOut", "ZoomOutAll", "ZoomInAll", "MoveLastLocation", "ReadPrevious",
+                 "ReadNext", "ReadCurrent", "ReadCellCurrent", "ReadStart", "ReadEnd", "ReadLineStart", "ReadLineEnd", "DescribePrevious", "DescribeNext",
+                 "DescribeCurrent", "WhereAmI", "WhereAmIAll", "ToggleZoomLockUp", "ToggleZoomLockDown", "ToggleSpeakMode", "Exit"] + \
+                ["%s%d" % (c, i) for c in ("MoveTo", "Read", "Describe", "SetPlacemarker") for i in range(10)]
+_NAV_CACHE = []
+
+
+def nav_commands():
+    """the navigation command names, read from the source tree so that the workload follows the code base"""
+    if not _NAV_CACHE:
+        names = []
+        try:
+            src = open(os.path.join(core.REPO, "src", "navigate.rs"), encoding="utf-8").read()
+            m = re.search(r"NAV_COMMANDS\s*:\s*phf::Set<&str>\s*=\s*phf_set!\s*\{(.*?)\};", src, re.S)
+            if m:
+                names = re.findall(r'"([A-Za-z0-9]+)"', m.group(1))
+        except OSError:
+            pass
+        _NAV_CACHE.extend(names if len(names) >= 20 else _NAV_FALLBACK)
+    return list(_NAV_CACHE)
+
+
+def random_history(rng, st=None):
+    """a walk: 8-18 commands; goes down to the leaves (where the token texts are spoken on their own), reads, describes, asks where it is,
+    switches the speak mode (so that Move/Zoom speak through the overview rules too), uses place markers"""
+    cmds = nav_commands()
+    groups = {
+        "move": [c for c in cmds if c.startswith(("Move", "Zoom")) and not re.search(r"\d$", c)],
+        "read": [c for c in cmds if c.startswith("Read") and not re.search(r"\d$", c)],
+        "describe": [c for c in cmds if c.startswith("Describe") and not re.search(r"\d$", c)],
+        "where": [c for c in cmds if c.startswith("WhereAmI")],
+        "speakmode": [c for c in cmds if c == "ToggleSpeakMode"],
+        "toggle": [c for c in cmds if c.startswith("Toggle") and c != "ToggleSpeakMode"],
+        "marker": [c for c in cmds if re.search(r"\d$", c)],
+        "other": [c for c in cmds if not c.startswith(("Move", "Zoom", "Read", "Describe", "WhereAmI", "Toggle")) and not re.search(r"\d$", c)],
+    }
+    weights = [("move", 44), ("read", 12), ("describe", 14), ("where", 6), ("speakmode", 8), ("toggle", 3), ("marker", 11), ("other", 2)]
+    weights = [(g, w) for g, w in weights if groups[g]]
+    h = []
+    down = [c for c in ("ZoomIn", "ZoomInAll", "MoveNext") if c in cmds]
+    for _ in range(rng.randint(0, 2)):
+        if down:
+            h.append(rng.choice(down))
+    for _ in range(rng.randint(8, 16)):
+        g = rng.choices([g for g, _ in weights], [w for _, w in weights])[0]
+        c = rng.choice(groups[g])
+        if g == "marker":
+            c = re.sub(r"\d$", str(rng.randint(0, 2)), c)      # few markers, so that MoveTo/Read/Describe hit markers that were set
+        h.append(c)
+    if "ToggleSpeakMode" not in h and groups["speakmode"] and rng.random() < 0.75:
+        h.insert(rng.randint(0, len(h) // 2), "ToggleSpeakMode")
+    return h
 
 
 def rules_dir_for(cfg, probe_dir):
@@ -426,102 +556,144 @@ def _failure_class(r):
     return "err " + re.sub(r"'[^']*'", "'…'", re.sub(r"\d+", "N", lines[-1] if lines else ""))[:100]
 
 
-def judge(cfg, tree, res, st=None):
-    """returns list of findings: dict(kind, cls (tree-independent class), engine, detail)"""
+def judge_output(cfg, tree, engine, ep, plain, speech, ids_xml, st=None):
+    """One engine output against the plain-mode output of the same call.  ep = entry point group: '' (get_spoken_text), 'overview'
+    (get_overview_text), 'nav' (speech of a navigation command).  returns findings: dict(kind, cls (witness-independent class), engine, detail)"""
     out = []
-    sm0, sp0 = res["None"]
-    if sm0["r"] != "ok":
+    label = engine + ("/" + ep if ep else "")
+    a = mk.analyse(engine, speech)
+    if st:
+        st.evaluations += 1
+        st.count("outputs_judged_" + (ep or "spoken"))
+        for t in a["tags"]:
+            if t.kind != "close" and t.name in mk.VOCAB[engine]:
+                st.add("tags_seen", "%s:%s" % (label, t.name))
+                for an, _ in t.attrs:
+                    st.add("attributes_seen", "%s:%s@%s" % (engine, t.name, an))
+        for r in a["remarks"]:
+            st.count("remark_" + r)
+        if a["tags"]:
+            st.nontrivial.add(core.h16(tree.shape() + "|" + cfg_sig(cfg) + "|" + label))
+        if mk.ENTITY_RX.search(speech):
+            st.count("outputs_with_character_references_" + (ep or "spoken"))
+    seen = set()
+    for kind, where, cls, detail in a["problems"]:
+        key = "markup:%s:%s:%s:%s" % (label, kind, where, cls)
+        if key in seen:
+            continue
+        seen.add(key)
+        out.append({"kind": "markup", "cls": key, "engine": engine, "detail": "%s in %s output: %s | whole speech: %s" % (cls, label, detail, speech[:400])})
+    if not any(p[0] in ("syntax", "nesting") for p in a["problems"]):
+        msg = mk.xml_second_opinion(engine, speech)
+        if msg:
+            out.append({"kind": "markup", "cls": "markup:%s:xml:parser:%s" % (label, re.sub(r"\d+", "N", msg)[:60]), "engine": engine,
+                        "detail": "XML parser rejects %s output (%s): %s" % (label, msg, speech[:400])})
+        elif st:
+            st.count("xml_parser_accepts_" + engine)
+    if a["unreliable"]:
         if st:
-            st.count("set_mathml_" + sm0["r"])
-        return out
-    if sp0["r"] != "ok":
+            st.count("words_not_compared_text_boundary_in_doubt")
+    else:
+        ek = mk.words_key(a["text"])
+        plain_key = mk.words_key(plain)
         if st:
-            st.count("plain_speech_" + sp0["r"])
-            st.add("plain_speech_failures", _failure_class(sp0))
+            st.count("words_compared")
+        if ek != plain_key:
+            m_plain, m_eng = mk.diff_middle(plain_key, ek)
+            out.append({"kind": "words", "cls": "words:%s" % label, "engine": engine,
+                        "pre": ("engine-silent",) if ek == "" else ("plain-silent",) if plain_key == "" else _first_difference(plain_key, ek),
+                        "detail": "words differ: plain has %r where %s has %r | plain: %s | %s: %s" % (m_plain[:60], label, m_eng[:60], plain[:300], label, speech[:400])})
+    if a["bookmarks"]:
+        ids = mathml_ids(ids_xml)
+        if st:
+            st.count("bookmarks_checked", len(a["bookmarks"]))
+            if cfg["prefs"].get("Bookmark") != "true":
+                st.count("bookmarks_although_not_requested")
+        bad = [b for b in a["bookmarks"] if b not in ids]
+        if bad:
+            cls = "empty-name" if all(b == "" for b in bad) else "not-an-id"
+            out.append({"kind": "bookmark", "cls": "bookmark:%s:%s" % (label, cls), "engine": engine,
+                        "detail": "bookmark name(s) %r are not ids of the expression (ids: %s) | %s" % (bad[:4], sorted(ids)[:12], speech[:300])})
+    elif st and cfg["prefs"].get("Bookmark") == "true" and not ep:
+        st.count("bookmark_requested_but_none_emitted")
+    return out
+
+
+def judge(cfg, tree, res, st=None, history=()):
+    """all outputs of one case (one history in three sessions).  A call that fails in plain mode is not judged (C08's business); a call that
+    fails only under an engine makes the rest of the walk inconclusive for that engine (the sessions may have diverged)."""
+    out = []
+    r0 = res["None"]
+    if r0["set"]["r"] != "ok":
+        if st:
+            st.count("set_mathml_" + r0["set"]["r"])
         return out
-    plain = sp0["v"]
-    if st and re.search(r"<[A-Za-z/]", plain) and not any("<" in (n.text or "") for n, _ in tree.walk()):
+    if st and r0["spoken"]["r"] == "ok" and re.search(r"<[A-Za-z/]", r0["spoken"]["v"]) and not any("<" in (n.text or "") for n, _ in tree.walk()):
         st.count("tags_in_plain_mode")
-    plain_key = mk.words_key(plain)
+    mode = "read"
+    modes = []
+    for c in history:
+        modes.append(mode)
+        if c == "ToggleSpeakMode":
+            mode = "overview" if mode == "read" else "read"
+    seen = set()
     for engine in ENGINES:
-        sm, sp = res[engine]
-        if sm["r"] != "ok":
+        re_ = res[engine]
+        if re_["set"]["r"] != "ok":
             if st:
-                st.count("set_mathml_%s_under_%s" % (sm["r"], engine))
+                st.count("set_mathml_%s_under_%s" % (re_["set"]["r"], engine))
             continue
-        if sp["r"] != "ok":
-            if st:
-                st.count("engine_speech_%s_%s" % (sp["r"], engine))
-                st.inconclusive += 1
-                st.add("engine_speech_failures", "%s %s" % (engine, _failure_class(sp)))
-            continue
-        speech = sp["v"]
-        a = mk.analyse(engine, speech)
-        if st:
-            st.evaluations += 1
-            for t in a["tags"]:
-                if t.kind != "close" and t.name in mk.VOCAB[engine]:
-                    st.add("tags_seen", "%s:%s" % (engine, t.name))
-                    for an, _ in t.attrs:
-                        st.add("attributes_seen", "%s:%s@%s" % (engine, t.name, an))
-            for r in a["remarks"]:
-                st.count("remark_" + r)
-            if a["tags"]:
-                st.nontrivial.add(core.h16(tree.shape() + "|" + cfg_sig(cfg) + "|" + engine))
-        seen = set()
-        for kind, where, cls, detail in a["problems"]:
-            key = "markup:%s:%s:%s:%s" % (engine, kind, where, cls)
-            if key in seen:
+        calls = [("", "get_spoken_text", r0["spoken"], re_["spoken"]), ("overview", "get_overview_text", r0["overview"], re_["overview"])]
+        calls += [("nav", c, a, b) for c, a, b in zip(history, r0["nav"], re_["nav"])]
+        for k, (ep, name, rp, rr) in enumerate(calls):
+            if rp["r"] != "ok":
+                if st and engine == ENGINES[0]:
+                    st.count("plain_%s_%s" % ("nav" if ep == "nav" else name, rp["r"]))
+                    st.add("plain_speech_failures", "%s: %s" % ("navigation" if ep == "nav" else name, _failure_class(rp)))
+                if rr["r"] == "ok" and ep == "nav":
+                    if st:
+                        st.count("nav_engine_ok_where_plain_failed")
+                        st.inconclusive += 1
+                    break
                 continue
-            seen.add(key)
-            out.append({"kind": "markup", "cls": key, "engine": engine, "detail": "%s in %s output: %s | whole speech: %s" % (cls, engine, detail, speech[:400])})
-        if not any(p[0] in ("syntax", "nesting") for p in a["problems"]):
-            msg = mk.xml_second_opinion(engine, speech)
-            if msg:
-                out.append({"kind": "markup", "cls": "markup:%s:xml:parser:%s" % (engine, re.sub(r"\d+", "N", msg)[:60]), "engine": engine,
-                            "detail": "XML parser rejects %s output (%s): %s" % (engine, msg, speech[:400])})
-            elif st:
-                st.count("xml_parser_accepts_" + engine)
-        if a["unreliable"]:
-            if st:
-                st.count("words_not_compared_text_boundary_in_doubt")
-        else:
-            ek = mk.words_key(a["text"])
-            if st:
-                st.count("words_compared")
-            if ek != plain_key:
-                m_plain, m_eng = mk.diff_middle(plain_key, ek)
-                out.append({"kind": "words", "cls": "words:%s" % engine, "engine": engine, "pre": _first_difference(plain_key, ek),
-                            "detail": "words differ: plain has %r where %s has %r | plain: %s | %s: %s" % (m_plain[:60], engine, m_eng[:60], plain[:300], engine, speech[:400])})
-        if a["bookmarks"]:
-            ids = mathml_ids(sm["v"])
-            if st:
-                st.count("bookmarks_checked", len(a["bookmarks"]))
-                if cfg["prefs"].get("Bookmark") != "true":
-                    st.count("bookmarks_although_not_requested")
-            bad = [b for b in a["bookmarks"] if b not in ids]
-            if bad:
-                cls = "empty-name" if all(b == "" for b in bad) else "not-an-id"
-                out.append({"kind": "bookmark", "cls": "bookmark:%s:%s" % (engine, cls), "engine": engine,
-                            "detail": "bookmark name(s) %r are not ids of the expression (ids: %s) | %s" % (bad[:4], sorted(ids)[:12], speech[:300])})
-        elif st and cfg["prefs"].get("Bookmark") == "true":
-            st.count("bookmark_requested_but_none_emitted")
+            if rr["r"] != "ok":
+                if st:
+                    st.count("engine_%s_%s_%s" % ("nav" if ep == "nav" else name, rr["r"], engine))
+                    st.inconclusive += 1
+                    st.add("engine_speech_failures", "%s %s: %s" % (engine, "navigation" if ep == "nav" else name, _failure_class(rr)))
+                if ep == "nav":
+                    break
+                continue
+            if st and ep == "nav":
+                st.add("nav_commands_judged", "%s|%s-mode" % (re.sub(r"\d$", "N", name), modes[k - 2]))
+            fs = judge_output(cfg, tree, engine, ep, rp["v"], rr["v"], re_["set"]["v"], st)
+            for f in fs:
+                if f["cls"] in seen:
+                    continue
+                seen.add(f["cls"])
+                if ep == "nav":
+                    f["detail"] = "after %s: %s" % (" ".join(history[:k - 1]), f["detail"])
+                out.append(f)
+            if fs and ep == "nav":
+                break           # a walk stops at its first violation: from here on the sessions may stand on different nodes
     # observation only (not part of the statement): the two engines should pause at the same places for the same time
-    if st and res["SSML"][1]["r"] == "ok" and res["SAPI5"][1]["r"] == "ok":
-        p1 = re.findall(r"<break time='([^']*)'", res["SSML"][1]["v"])
-        p2 = re.findall(r"<silence msec=+'([^']*?)(?:ms)?'", res["SAPI5"][1]["v"])
+    if st and res["SSML"]["spoken"]["r"] == "ok" and res["SAPI5"]["spoken"]["r"] == "ok":
+        p1 = re.findall(r"<break time='([^']*)'", res["SSML"]["spoken"]["v"])
+        p2 = re.findall(r"<silence msec=+'([^']*?)(?:ms)?'", res["SAPI5"]["spoken"]["v"])
         if [x.replace("ms", "") for x in p1] != p2:
             st.count("observation_pause_sequences_differ_between_engines")
     return out
 
 
-def signature(f, cfg, tree, cause=None):
-    """structural signature: markup problems are identified by their class alone (engine, tag, attribute, problem class);
-    word and bookmark problems by the shape of the (minimal) witness and the preferences that are off their defaults.
-    cause = input feature whose removal makes the problem disappear (see Diagnoser), part of the signature."""
+def signature(f, cfg, tree, cause=None, history=()):
+    """structural signature: markup problems are identified by their class alone (engine/entry point, tag, attribute, problem class);
+    word and bookmark problems by the shape of the (minimal) witness, the preferences that are off their defaults and, for navigation
+    speech, the command at which it happened.  cause = input feature whose removal makes the problem disappear (see Diagnoser)."""
     if f["kind"] == "markup":
         return f["cls"] + ("|cause=" + cause if cause else "")
-    return "%s | cause=%s | %s | %s" % (f["cls"], cause or "-", shrink.abstract_shape(tree), cfg_sig(cfg))
+    # the command whose speech is wrong (the last one of the minimal history); the way there is in the witness, not in the signature
+    nav = " | at " + re.sub(r"\d$", "N", history[-1]) if "/nav" in f["cls"] and history else ""
+    return "%s | cause=%s | %s | %s%s" % (f["cls"], cause or "-", shrink.abstract_shape(tree), cfg_sig(cfg), nav)
 
 
 def _odd_id(i):
@@ -532,15 +704,16 @@ def _odd_id(i):
 class Diagnoser:
     """Cheap causal classification of a violating case: which input feature, when removed, makes the violation class disappear?
        odd-id          some id is a single character or contains ' " < & > + or white space  -> all ids renamed to plain names
-       markup-text     some token text contains < & >                                       -> these characters replaced by letters
+       markup-text     some token text of more than one character contains < & > ' "         -> these characters replaced by letters
        hostile-number  a numeric preference is zero/negative/tiny/huge/non-finite            -> those preferences set to ordinary values
+       bookmark-pref   (word differences in navigation speech only) Bookmark=true             -> Bookmark=false
        optional-word   (word differences only) the rule files use optional words (ot:)       -> rule files with ot: turned into t:
     Used for pre-clustering and as part of the signature; evaluated lazily, at most three extra evaluations per violating case."""
     HOSTILE = ("zero", "negative", "le-minus-100", "huge", "tiny", "nan", "+inf", "-inf")
     SANE = {"Rate": "200", "MathRate": "120", "PauseFactor": "150", "Pitch": "20", "Volume": "50", "CapitalLetters_Pitch": "30"}
 
-    def __init__(self, sess, cfg, tree, rules_dir=None):
-        self.sess, self.cfg, self.tree = sess, cfg, tree
+    def __init__(self, sess, cfg, tree, rules_dir=None, history=()):
+        self.sess, self.cfg, self.tree, self.history = sess, cfg, tree, tuple(history)
         self.rules_dir = rules_dir           # the rules directory the session uses (None = shipped)
         self.cache = {}
 
@@ -561,12 +734,12 @@ class Diagnoser:
         elif name == "markup-text":
             # single-character tokens are spoken through the character tables ("<" -> "is less than"): only longer texts pass through raw
             def raw(n):
-                return n.kids is None and n.text and (len(n.text) > 1 or n.text == "&") and re.search(r"[<&>]", n.text)
+                return n.kids is None and n.text and (len(n.text) > 1 or n.text == "&") and re.search(r"""[<&>'"]""", n.text)
             if any(raw(n) for n, _ in tree.walk()):
                 tree = tree.copy()
                 for n, _ in tree.walk():
                     if raw(n):
-                        n.text = re.sub(r"[<&>]", "z", n.text)
+                        n.text = re.sub(r"""[<&>'"]""", "z", n.text)
                 out = self._run(cfg, tree)
         elif name == "hostile-number":
             bad = [k for k in NUMERIC if k in cfg["prefs"] and value_class(k, cfg["prefs"][k]) in self.HOSTILE]
@@ -576,13 +749,18 @@ class Diagnoser:
                 for k in bad:
                     cfg["prefs"][k] = self.SANE[k]      # not the default: the tag must still be produced
                 out = self._run(cfg, tree)
+        elif name == "bookmark-pref":
+            if cfg["prefs"].get("Bookmark") == "true":
+                cfg = dict(cfg)
+                cfg["prefs"] = dict(cfg["prefs"], Bookmark="false")
+                out = self._run(cfg, tree)
         elif name == "optional-word":
             # same case under rule files without optional words: is the word difference made by the optional-word clean-up?
             try:
                 s2 = Sess(noopt_rules(self.rules_dir), cfg["lang"], cfg["style"])
                 try:
-                    res = s2.evaluate(cfg, tree.xml())
-                    out = set(f["cls"] for f in judge(cfg, tree, res)) if res else None
+                    res = s2.evaluate(cfg, tree.xml(), self.history)
+                    out = set(f["cls"] for f in judge(cfg, tree, res, None, self.history)) if res else None
                 finally:
                     s2.close()
             except (core.Inconclusive, OSError):
@@ -591,40 +769,71 @@ class Diagnoser:
         return out
 
     def _run(self, cfg, tree):
-        res = self.sess.evaluate(cfg, tree.xml())
+        res = self.sess.evaluate(cfg, tree.xml(), self.history)
         if res is None:
             return None
-        return set(f["cls"] for f in judge(cfg, tree, res))
+        return set(f["cls"] for f in judge(cfg, tree, res, None, self.history))
 
     def cause(self, cls):
         numeric = re.search(r":attr-value:[^:]+:(non-finite|negative-time|not-a-number|empty)$", cls) is not None
-        for name in (("hostile-number",) if numeric else ()) + ("odd-id", "markup-text") + (("optional-word",) if cls.startswith("words:") else ()):
+        names = ("hostile-number",) if numeric else ()
+        m = re.match(r"markup:[^:]+:([a-z\-]+):([^:]+):", cls)
+        kind, where = (m.group(1), m.group(2)) if m else ("", "")
+        # a cause is only considered for classes it can produce (an automatic pause that comes and goes with the length of the text
+        # must not make a defect of the pause tags look like a consequence of the text)
+        if not m or kind in ("xml", "nesting") or where.split("@")[0] in ("mark", "bookmark"):
+            names += ("odd-id",)
+        if not m or kind == "xml" or where in ("#text", "*", "*@*"):
+            names += ("markup-text",)
+        if cls.startswith("words:"):
+            names += (("bookmark-pref",) if "/nav" in cls else ()) + ("optional-word",)
+        for name in names:
             after = self._classes(name)
             if after is not None and cls not in after:
                 return name
         return None
 
 
-def findings_to_violations(fs, cfg, tree, sess, rules_dir=None):
-    diag = Diagnoser(sess, cfg, tree, rules_dir)
-    return [core.violation(f["kind"], signature(f, cfg, tree, diag.cause(f["cls"])), {"cfg": cfg, "mathml": tree.xml()}, f["detail"][:900]) for f in fs]
+def witness_of(cfg, tree, history=()):
+    w = {"cfg": cfg, "mathml": tree.xml()}
+    if history:
+        w["history"] = list(history)
+    return w
+
+
+def findings_to_violations(fs, cfg, tree, sess, rules_dir=None, history=()):
+    diag = Diagnoser(sess, cfg, tree, rules_dir, history)
+    return [core.violation(f["kind"], signature(f, cfg, tree, diag.cause(f["cls"]), history), witness_of(cfg, tree, history), f["detail"][:900]) for f in fs]
 
 
 # ------------------------------------------------------------------------------------------------------------
 # minimisation
 # ------------------------------------------------------------------------------------------------------------
-def minimise(cfg, tree, cls, probe_dir, budget=260):
-    """shrink the expression, then the token texts, then move the configuration towards the defaults; the violation class stays the same"""
-    def fails_with(c, sess):
+def minimise(cfg, tree, cls, probe_dir, history=(), budget=260):
+    """shrink the expression, the command history, the token texts, then move the configuration towards the defaults; the violation
+    class stays the same.  returns (cfg, tree, history)"""
+    def fails_with(c, sess, h):
         def pred(t):
-            res = sess.evaluate(c, t.xml())
-            return res is not None and any(f["cls"] == cls for f in judge(c, t, res))
+            res = sess.evaluate(c, t.xml(), h)
+            return res is not None and any(f["cls"] == cls for f in judge(c, t, res, None, h))
         return pred
 
+    history = tuple(history)
     sess = Sess(rules_dir_for(cfg, probe_dir), cfg["lang"], cfg["style"])
     try:
-        pred = fails_with(cfg, sess)
-        small = shrink.shrink_tree(tree, pred, budget=budget, leaf_factory=lambda: [gen.mi("x")])
+        if history and "/nav" not in cls and fails_with(cfg, sess, ())(tree):
+            history = ()                            # get_spoken_text / get_overview_text do not need the walk
+        if history:
+            # cut the walk after the first failing step, then drop the commands that are not needed
+            for n in range(1, len(history)):
+                if fails_with(cfg, sess, history[:n])(tree):
+                    history = history[:n]
+                    break
+        pred = fails_with(cfg, sess, history)
+        small = shrink.shrink_tree(tree, pred, budget=budget if not history else budget // 2, leaf_factory=lambda: [gen.mi("x")])
+        if history:
+            history = tuple(shrink.shrink_list(list(history), lambda h: fails_with(cfg, sess, tuple(h))(small), budget=40))
+            pred = fails_with(cfg, sess, history)
         # shorten token texts (the generic shrinker only replaces whole tokens)
         calls = 0
         changed = True
@@ -656,7 +865,7 @@ def minimise(cfg, tree, cls, probe_dir, budget=260):
                 trial = dict(cfg)
                 trial["prefs"] = dict(cfg["prefs"])
                 trial["prefs"][k] = DEFAULTS[k]
-                if fails_with(trial, sess)(small):
+                if fails_with(trial, sess, history)(small):
                     cfg = trial
     finally:
         sess.close()
@@ -672,13 +881,13 @@ def minimise(cfg, tree, cls, probe_dir, budget=260):
             continue
         s2 = Sess(rules_dir_for(trial, probe_dir), trial["lang"], trial["style"])
         try:
-            if fails_with(trial, s2)(small):
+            if fails_with(trial, s2, history)(small):
                 cfg = trial
         except core.Inconclusive:
             pass
         finally:
             s2.close()
-    return cfg, small
+    return cfg, small, history
 
 
 # ------------------------------------------------------------------------------------------------------------
@@ -691,6 +900,7 @@ def shard(spec):
     opened, _ = core.load_findings(PROP)
     seen_pre = {}
     shrinks = 0
+    sampled_walk = False
     for group in spec["groups"]:
         rules, lang, style = group["rules"], group["lang"], group["style"]
         sess = Sess(spec["probe_dir"] if rules == "probe" else None, lang, style)
@@ -705,21 +915,32 @@ def shard(spec):
                 for k, v in cfg["prefs"].items():
                     st.add("preference_value_classes", "%s=%s" % (k, value_class(k, v)))
                 for ei in range(group["exprs"]):
-                    tb = gen.Textbook(rng, decimal=decimal, max_depth=rng.choice([1, 2, 3, 3, 4]))
+                    walk = rng.random() < spec["walk_p"]
+                    tb = gen.Textbook(rng, decimal=decimal, max_depth=rng.choice([1, 2, 2, 3] if walk else [1, 2, 3, 3, 4]))
                     tree, _ = tb.expression()
-                    decorate(rng, tree, cfg, random_feats(rng, spec["hostile_p"]))
-                    res = sess.evaluate(cfg, tree.xml())
+                    decorate(rng, tree, cfg, random_feats(rng, spec["hostile_p"], 0.75 if walk else spec["specials_p"]))
+                    history = tuple(random_history(rng)) if walk else ()
+                    res = sess.evaluate(cfg, tree.xml(), history)
                     if res is None:
                         st.inconclusive += 1
                         st.count("driver_died_or_timed_out")
                         continue
+                    st.count("cases_with_walk" if walk else "cases_without_walk")
                     for name, err in res["pref_errors"]:
                         st.count("set_preference_rejected_" + name)
-                    fs = judge(cfg, tree, res, st)
-                    if ci == 0 and ei == 0 and res["SSML"][1]["r"] == "ok" and res["None"][1]["r"] == "ok":
-                        st.sample({"config": cfg_sig(cfg), "mathml": tree.xml()[:500], "plain": res["None"][1]["v"][:300],
-                                   "SSML": res["SSML"][1]["v"][:500], "SAPI5": (res["SAPI5"][1].get("v") or "")[:500]}, limit=2)
-                    diag = Diagnoser(sess, cfg, tree, rules_dir_for(cfg, spec["probe_dir"])) if fs else None
+                    fs = judge(cfg, tree, res, st, history)
+                    ok = lambda tts, k: res[tts][k]["r"] == "ok"
+                    if ci == 0 and ei == 0 and ok("SSML", "spoken") and ok("None", "spoken"):
+                        st.sample({"config": cfg_sig(cfg), "mathml": tree.xml()[:500], "plain": res["None"]["spoken"]["v"][:300],
+                                   "SSML": res["SSML"]["spoken"]["v"][:500], "SAPI5": (res["SAPI5"]["spoken"].get("v") or "")[:500]}, limit=2)
+                    if walk and not sampled_walk and all(r["r"] == "ok" for r in res["SSML"]["nav"]) and any("&" in (r.get("v") or "") for r in res["SSML"]["nav"]):
+                        sampled_walk = True
+                        st.samples.append({"config": cfg_sig(cfg), "mathml": tree.xml()[:400], "history": list(history),
+                                           "overview_SSML": (res["SSML"]["overview"].get("v") or "")[:200],
+                                           "nav_plain": [r.get("v", "")[:80] for r in res["None"]["nav"]][:8],
+                                           "nav_SSML": [r.get("v", "")[:120] for r in res["SSML"]["nav"]][:8]})
+                    rdir = rules_dir_for(cfg, spec["probe_dir"])
+                    diag = Diagnoser(sess, cfg, tree, rdir, history) if fs else None
                     for f in fs:
                         st.count("raw_" + f["cls"][:90])
                         cause = diag.cause(f["cls"])
@@ -731,10 +952,10 @@ def shard(spec):
                         if pre in seen_pre:
                             seen_pre[pre]["count"] += 1
                             continue
-                        v0 = core.violation(f["kind"], signature(f, cfg, tree, cause), {"cfg": cfg, "mathml": tree.xml()}, f["detail"][:900])
+                        v0 = core.violation(f["kind"], signature(f, cfg, tree, cause, history), witness_of(cfg, tree, history), f["detail"][:900])
                         v0["count"] = 1
-                        if f["kind"] == "markup" and core.match_finding(v0, [o for o in opened if not o.get("predicate")]) is not None:
-                            # the signature does not depend on the witness and the finding is listed: count, do not shrink again
+                        if core.match_finding(v0, [o for o in opened if not o.get("predicate")]) is not None:
+                            # the finding is listed and its signature pattern holds already for the unshrunk witness: count, do not shrink again
                             seen_pre[pre] = v0
                             st.violations.append(v0)
                             continue
@@ -746,13 +967,14 @@ def shard(spec):
                         shrinks += 1
                         v = None
                         try:
-                            mcfg, small = minimise(cfg, tree, f["cls"], spec["probe_dir"])
-                            s3 = Sess(rules_dir_for(mcfg, spec["probe_dir"]), mcfg["lang"], mcfg["style"])
+                            mcfg, small, mhist = minimise(cfg, tree, f["cls"], spec["probe_dir"], history)
+                            mdir = rules_dir_for(mcfg, spec["probe_dir"])
+                            s3 = Sess(mdir, mcfg["lang"], mcfg["style"])
                             try:
-                                r3 = s3.evaluate(mcfg, small.xml())
-                                f3 = [x for x in (judge(mcfg, small, r3) if r3 else []) if x["cls"] == f["cls"]]
+                                r3 = s3.evaluate(mcfg, small.xml(), mhist)
+                                f3 = [x for x in (judge(mcfg, small, r3, None, mhist) if r3 else []) if x["cls"] == f["cls"]]
                                 if f3:
-                                    v = findings_to_violations(f3[:1], mcfg, small, s3, rules_dir_for(mcfg, spec["probe_dir"]))[0]
+                                    v = findings_to_violations(f3[:1], mcfg, small, s3, mdir, mhist)[0]
                             finally:
                                 s3.close()
                         except core.Inconclusive:
@@ -763,14 +985,10 @@ def shard(spec):
                         v["count"] = 1
                         seen_pre[pre] = v
                         st.violations.append(v)
-            try:
-                hits = sess.s.call("rule_hits")
-                for k in (hits or {}).get("v") or {}:
-                    t = k.split("|")
-                    if t[0] == "Speech":
-                        st.add("speech_rules_fired", "%s|%s|%s" % (t[1].split("/Rules/")[-1].split("/rules-")[-1], t[2], t[3]))
-            except Exception:
-                pass
+            for k in sess.rule_hits():
+                t = k.split("|")
+                if t[0] in ("Speech", "OverView", "Navigation"):
+                    st.add("rules_fired_" + t[0].lower(), "%s|%s|%s" % (t[1].split("/Rules/")[-1].split("/rules-")[-1], t[2], t[3]))
         finally:
             sess.close()
     drop_noopt_rules()
@@ -794,15 +1012,18 @@ def _with_probe(cfg, fn):
 # ------------------------------------------------------------------------------------------------------------
 def replay(witness):
     cfg = witness["cfg"]
+    cfg = dict(cfg)
+    cfg["prefs"] = dict(DEFAULTS, **cfg["prefs"])       # witnesses written before a preference dimension existed
     tree = gen.from_xml(witness["mathml"])
+    history = tuple(witness.get("history") or ())
 
     def go(probe):
         s = Sess(rules_dir_for(cfg, probe), cfg["lang"], cfg["style"])
         try:
-            res = s.evaluate(cfg, tree.xml())
+            res = s.evaluate(cfg, tree.xml(), history)
             if res is None:
                 return []
-            return findings_to_violations(judge(cfg, tree, res), cfg, tree, s, rules_dir_for(cfg, probe))
+            return findings_to_violations(judge(cfg, tree, res, None, history), cfg, tree, s, rules_dir_for(cfg, probe), history)
         finally:
             s.close()
             drop_noopt_rules()
@@ -817,10 +1038,10 @@ def plan(rng, tier):
     for lang in langs:
         for style in configs.styles(lang):
             weight = 4 if lang == "en" else 1
-            for _ in range(weight * (8 if quick else 16)):
-                groups.append({"rules": "shipped", "lang": lang, "style": style, "configs": 8 if quick else 50, "exprs": 12 if quick else 30})
-    for _ in range(64 if quick else 128):
-        groups.append({"rules": "probe", "lang": "en", "style": PROBE_STYLE, "configs": 8 if quick else 50, "exprs": 12 if quick else 30})
+            for _ in range(weight * (3 if quick else 12)):
+                groups.append({"rules": "shipped", "lang": lang, "style": style, "configs": 12 if quick else 50, "exprs": 10 if quick else 30})
+    for _ in range(24 if quick else 96):
+        groups.append({"rules": "probe", "lang": "en", "style": PROBE_STYLE, "configs": 12 if quick else 50, "exprs": 10 if quick else 30})
     rng.shuffle(groups)
     return groups
 
@@ -835,7 +1056,7 @@ def run(tier, seed):
         nsh = core.NPROC
         budget = 55 if tier == "quick" else 1300
         specs = [{"seed": core.sub_seed(seed, PROP, i), "groups": groups[i::nsh], "probe_dir": probe_dir, "time_budget": budget,
-                  "hostile_p": 0.06, "max_shrinks": 14 if tier == "quick" else 40} for i in range(nsh)]
+                  "hostile_p": 0.06, "specials_p": 0.3, "walk_p": 0.3, "max_shrinks": 14 if tier == "quick" else 40} for i in range(nsh)]
         results = core.run_shards(shard, specs)
         stats, errors = core.Stats.merge(results)
         known, fixed_failures, extra_v = core.replay_findings(PROP, replay)
